@@ -38,7 +38,7 @@ def run_tempo(system, oper, corr, rho0, start, dt, nsteps, params, unique):
 
 
 def run_pt(system, oper, corr, rho0, start, dt, nsteps, params, unique,
-           subdiv_limit=256, file_backed=False):
+           subdiv_limit=256, file_backed=False, reimport=None):
     """PT-TEMPO + compute_dynamics; with file_backed the process tensor is
     computed straight into an HDF5 file (removed afterwards)."""
     import os
@@ -55,10 +55,26 @@ def run_pt(system, oper, corr, rho0, start, dt, nsteps, params, unique,
                                     params, unique=unique,
                                     process_tensor_file=fn,
                                     progress_type="silent")
-        dyn = oqupy.compute_dynamics(system, rho0, start_time=start,
-                                     process_tensor=pt,
-                                     subdiv_limit=subdiv_limit,
-                                     progress_type="silent")
+        fn2 = None
+        if reimport is not None:
+            fd, fn2 = tempfile.mkstemp(prefix="vp_pt_", suffix=".hdf5")
+            os.close(fd)
+            os.remove(fn2)
+            pt.export(fn2)
+            pt = oqupy.import_process_tensor(fn2, reimport)
+        try:
+            dyn = oqupy.compute_dynamics(system, rho0, start_time=start,
+                                         process_tensor=pt,
+                                         subdiv_limit=subdiv_limit,
+                                         progress_type="silent")
+        finally:
+            if fn2 is not None:
+                if hasattr(pt, "close"):
+                    pt.close()
+                import gc
+                gc.collect()
+                if os.path.exists(fn2):
+                    os.remove(fn2)
     finally:
         if fn is not None:
             try:
